@@ -1,3 +1,161 @@
-(* C09 — placeholder while the proofs are being written *)
-From Verif.Base Require Import Bytes.
-From Verif.Tlog Require Import Index Tree Codec.
+(* C09 — The log's tree hash and stored-hash layout are exactly RFC 6962 for every log.
+   Property theorems only; each is closed by [exact] of a lemma proved in Tlog/Proofs*.v.
+   All statements are parametric in the hash functions (no assumption on them).
+   Model: Tlog/Index.v, Tlog/Tree.v, Tlog/Codec.v (tlog.go, tlog/note.go); specification:
+   Tlog/Spec6962.v (mth = RFC 6962 MTH on the list of leaf hashes, store_of = the store
+   obtained by writing the records one at a time with tlog.StoredHashes).
+   Guard: sizes below 2^62 and indexes below 2^63 (Go uses int64; the model is unbounded). *)
+From Verif.Base Require Import Bytes Base64Proofs.
+From Verif.Gen Require Import GenConsts.
+From Verif.Tlog Require Import Index Tree Codec Spec6962 ProofsIndex ProofsSpec ProofsTree ProofsStore ProofsCodec.
+
+(* ---- the specification function is the RFC 6962 section 2.1 recursion ---- *)
+Theorem C09_mth_is_rfc6962 : forall (node_hash : hash -> hash -> hash),
+  mth node_hash [] = empty_hash /\
+  (forall x, mth node_hash [x] = x) /\
+  (forall l, 2 <= zlen l ->
+     let k := Z.to_nat (split_point (zlen l)) in      (* largest power of two < length *)
+     mth node_hash l = node_hash (mth node_hash (firstn k l)) (mth node_hash (skipn k l))) /\
+  (forall n, 2 <= n -> 1 <= split_point n < n /\ n <= 2 * split_point n /\
+                      exists j, split_point n = 2 ^ j).
+Proof.
+  intros node_hash. split; [reflexivity|]. split; [reflexivity|]. split.
+  - exact (mth_split node_hash).
+  - intros n Hn. pose proof (split_point_bounds n Hn). split; [tauto|]. split; [tauto|].
+    eexists; reflexivity.
+Qed.
+Print Assumptions C09_mth_is_rfc6962.
+
+(* ---- index arithmetic ---- *)
+Theorem C09_index_formula : forall l n, 0 <= l -> 0 <= n ->
+  let m := (n + 1) * 2 ^ l - 1 in
+  stored_hash_index l n = 2 * m - popcount m + l.
+Proof. exact index_formula. Qed.
+Print Assumptions C09_index_formula.
+
+(* SplitStoredHashIndex inverts StoredHashIndex … *)
+Theorem C09_index_split_bijection_1 : forall l n,
+  0 <= l -> 0 <= n -> stored_hash_index l n < 2 ^ 63 ->
+  split_stored_hash_index (stored_hash_index l n) = Ok (l, n).
+Proof. exact split_index. Qed.
+Print Assumptions C09_index_split_bijection_1.
+
+(* … and StoredHashIndex inverts SplitStoredHashIndex, which neither panics ("bad math") nor
+   runs out of fuel on any non-negative int64 *)
+Theorem C09_index_split_bijection_2 : forall i, 0 <= i < 2 ^ 63 ->
+  exists l n, split_stored_hash_index i = Ok (l, n) /\ 0 <= l /\ 0 <= n /\
+              stored_hash_index l n = i.
+Proof. exact index_split. Qed.
+Print Assumptions C09_index_split_bijection_2.
+
+Theorem C09_stored_hash_count : forall n, 0 <= n < 2 ^ 63 ->
+  stored_hash_count n = 2 * n - popcount n /\ stored_hash_count n = stored_hash_index 0 n.
+Proof.
+  intros n Hn. split; [apply stored_hash_count_spec; exact Hn|].
+  apply stored_hash_count_first. exact Hn.
+Qed.
+Print Assumptions C09_stored_hash_count.
+
+(* every intermediate value of StoredHashIndex(l, n) fits int64 when the subtree (l, n) lies
+   within 2^62 records (DESIGN.md's bound l <= 62 - log2 (n+1) is off by one: see
+   ProofsIndex.no_overflow_index_design_bound_refuted, witness l = 61, n = 2) *)
+Theorem C09_no_overflow_index : forall l n,
+  0 <= l -> 0 <= n -> (n + 1) * 2 ^ l <= 2 ^ 62 ->
+  0 <= stored_hash_index l n < 2 ^ 63 /\
+  (forall j, 0 <= j <= l -> 0 <= level_up j n < 2 ^ 62).
+Proof. exact no_overflow_index. Qed.
+Print Assumptions C09_no_overflow_index.
+
+Theorem C09_no_overflow_index_log2 : forall l n,
+  0 <= n -> 0 <= l <= 61 - Z.log2 (n + 1) -> 0 <= stored_hash_index l n < 2 ^ 63.
+Proof. exact no_overflow_index_log2. Qed.
+Print Assumptions C09_no_overflow_index_log2.
+
+(* ---- the store ---- *)
+Theorem C09_store_invariant : forall (leaf_hash : str -> hash) (node_hash : hash -> hash -> hash) recs,
+  zlen recs < 2 ^ 62 ->
+  let st := store_of leaf_hash node_hash recs in
+  zlen st = stored_hash_count (zlen recs) /\
+  forall l o, 0 <= l -> 0 <= o -> (o + 1) * 2 ^ l <= zlen recs ->
+    nth_error st (Z.to_nat (stored_hash_index l o))
+    = Some (mth node_hash (map leaf_hash (slice recs (o * 2 ^ l) (2 ^ l)))).
+Proof. exact store_invariant. Qed.
+Print Assumptions C09_store_invariant.
+
+(* density: every position is the index of exactly one complete subtree of the log *)
+Theorem C09_store_dense : forall (leaf_hash : str -> hash) (node_hash : hash -> hash -> hash) recs,
+  zlen recs < 2 ^ 62 ->
+  forall i, 0 <= i < zlen (store_of leaf_hash node_hash recs) ->
+  exists l o, split_stored_hash_index i = Ok (l, o) /\ 0 <= l /\ 0 <= o /\
+              (o + 1) * 2 ^ l <= zlen recs /\ stored_hash_index l o = i /\
+              forall l' o', 0 <= l' -> 0 <= o' -> stored_hash_index l' o' = i -> l' = l /\ o' = o.
+Proof. exact store_dense. Qed.
+Print Assumptions C09_store_dense.
+
+(* writing the next record never fails, appends 1 + (trailing ones of n) hashes *)
+Theorem C09_stored_hashes_count_bound :
+  forall (leaf_hash : str -> hash) (node_hash : hash -> hash -> hash) recs r,
+  zlen (recs ++ [r]) < 2 ^ 62 ->
+  exists hs, stored_hashes leaf_hash node_hash (zlen recs) r
+               (reader_of (store_of leaf_hash node_hash recs)) = Ok hs /\
+             store_of leaf_hash node_hash (recs ++ [r]) = store_of leaf_hash node_hash recs ++ hs /\
+             zlen hs = 1 + tz (zlen recs + 1) /\ zlen hs <= 1 + Z.log2 (zlen recs + 1).
+Proof. exact stored_hashes_ok. Qed.
+Print Assumptions C09_stored_hashes_count_bound.
+
+Theorem C09_tree_hash_is_MTH : forall (leaf_hash : str -> hash) (node_hash : hash -> hash -> hash) recs m,
+  zlen recs < 2 ^ 62 -> 0 <= m <= zlen recs ->
+  tree_hash node_hash m (reader_of (store_of leaf_hash node_hash recs))
+  = Ok (mth node_hash (map leaf_hash (firstn (Z.to_nat m) recs))).
+Proof. exact tree_hash_is_MTH. Qed.
+Print Assumptions C09_tree_hash_is_MTH.
+
+(* ---- text encodings ---- *)
+Theorem C09_parse_format_tree : forall t,
+  0 <= tN t < 2 ^ 63 -> Forall byte (tH t) /\ len (tH t) = tlog_HashSize ->
+  parse_tree (format_tree t) = Ok t.
+Proof. exact parse_format_tree. Qed.
+Print Assumptions C09_parse_format_tree.
+
+Theorem C09_parse_format_record : forall id text rest msg,
+  - 2 ^ 63 <= id < 2 ^ 63 ->
+  format_record id text = Ok msg ->
+  parse_record (msg ++ rest) = Ok (id, text, rest).
+Proof. exact parse_format_record. Qed.
+Print Assumptions C09_parse_format_record.
+
+Theorem C09_format_record_fails_iff_invalid : forall id text,
+  ((exists msg, format_record id text = Ok msg) <-> is_valid_record_text text = true) /\
+  (is_valid_record_text text = false -> format_record id text = Err EMalformed) /\
+  (is_valid_record_text text = true ->
+     exists t, text = t ++ [10] /\ nn_free 0 text).   (* ends in newline, no empty line inside *)
+Proof.
+  intros id text. split; [apply format_record_ok_iff|]. split; [apply format_record_err|].
+  apply valid_text_bytes.
+Qed.
+Print Assumptions C09_format_record_fails_iff_invalid.
+
+Theorem C09_parse_hash_string : forall h,
+  Forall byte h /\ len h = tlog_HashSize -> parse_hash (hash_string h) = Ok h.
+Proof. exact parse_hash_string. Qed.
+Print Assumptions C09_parse_hash_string.
+
+(* ---- non-vacuity: a concrete log with a toy hash ---- *)
+Definition ex_leaf (d : str) : hash := 76 :: d.
+Definition ex_node (a b : hash) : hash := 40 :: a ++ b ++ [41].
+Definition ex_recs : list str := [B "a"; B "b"; B "c"; B "d"; B "e"].
+
+Example C09_example_store :
+  zlen ex_recs < 2 ^ 62 /\
+  zlen (store_of ex_leaf ex_node ex_recs) = 8 /\
+  tree_hash ex_node 5 (reader_of (store_of ex_leaf ex_node ex_recs))
+  = Ok (B "(((LaLb)(LcLd))Le)") /\
+  tree_hash ex_node 3 (reader_of (store_of ex_leaf ex_node ex_recs)) = Ok (B "((LaLb)Lc)") /\
+  split_stored_hash_index 6 = Ok (2, 0) /\ stored_hash_index 2 0 = 6.
+Proof. vm_compute. repeat split; reflexivity. Qed.
+
+Example C09_example_codec :
+  parse_tree (format_tree (Tree 12345 tlog_emptyHash)) = Ok (Tree 12345 tlog_emptyHash) /\
+  format_record 7 (B "hello") = Err EMalformed /\
+  (exists msg, format_record 7 (10 :: B "hello" ++ [10]) = Ok msg).
+Proof. vm_compute. repeat split; try reflexivity. eexists; reflexivity. Qed.
